@@ -28,7 +28,8 @@ ANCHORS = ['manifest:ManifestFile.load', 'manifest:ManifestPathEntry.process_pat
            'manifest:ManifestEntryTIMESTAMP.from_list',
            'manifest:ManifestEntryDIST.from_list']
 REQUIRED = ['manifest:ManifestFile.load', 'manifest:ManifestPathEntry.decode_char',
-            'expect:reject', 'expect:accept', 'framed_texts', 'long_lines']
+            'expect:reject', 'expect:accept', 'framed_texts', 'long_lines',
+            'late_escapes']
 ASSUMPTIONS = ['texts are str (valid UTF-8); lines containing whitespace other than '
                'space/tab, armor-like lines, exotic integer syntax (+1, 1_0, -0, '
                'non-ASCII digits), surrogate escapes and non-padded timestamps are '
@@ -169,6 +170,17 @@ def run_esc(u, ctx):
                         '\\U%07X' % v, '\\x%02X\\' % v):
                 text = 'DATA %s 0\n' % esc
                 judge(ctx, text, {'kind': 'text', 'text': text}, klass='escape-odd')
+        # the n-th escape of a path is treated like the first: invalid forms after
+        # many valid ones are rejected, valid ones are decoded
+        for n in (1, 2, 31, 32, 33, 64, 257, 1000):
+            lead = ''.join('\\x20' if i % 2 else 'a\\u0020' for i in range(n))
+            for esc in ('\\x2', '\\t', '\\', '\\xZZ', '\\U00110000', '\\u12', '\\x41',
+                        '\\u00E9', '\\U0001F600'):
+                for tmpl in ('DATA %s%sz 0', 'IGNORE %s%s'):
+                    text = tmpl % (lead, esc) + '\n'
+                    judge(ctx, text, {'kind': 'text', 'text': text},
+                          klass='escape-late')
+                    ctx.count('late_escapes')
 
 
 def run_tok(u, ctx):
